@@ -5,7 +5,7 @@ package htlc
 
 // Begin block: every contract queued for this height is refunded to its sender and dequeued, exactly those,
 // and the block never aborts. (UpdateTimeBasedSupplyLimits is under its own contract.)
-//@ func BeginBlocker
+//@ func BeginBlocker(c, k)
 //@   property C03, C13
 //@   requires height >= 0 && time >= 0
 //@   requires keeper.allSupWF && keeper.escrowInv && keeper.countersInv && keeper.allRecWF && keeper.queueInv && keeper.paramsValid
@@ -21,7 +21,7 @@ package htlc
 
 // Genesis import (C12): every listed contract is stored under its id, unchanged, and queued for its expiration height
 // (so that a re-imported open contract still expires), whether it is a plain HTLC or a cross-chain transfer.
-//@ func InitGenesis
+//@ func InitGenesis(ctx, k, data)
 //@   property C03, C04, C12
 //@   modifies htlcs, queue, supplies, prm, prevTime
 //@   invariant #1 idx:   rangeindex >= 0 - 1 && rangeindex < len(data.Supplies)
